@@ -114,6 +114,7 @@ class C06:
         main_name = "[buf]" if via == "buf" else os.path.join(fixture_dir(), "main_input.conf")
         r, results = run(subs)
         fails, keys, cc = [], [], {}
+        crashed = False
         for sub, res in zip(subs, results):
             sig, msg, info = self.judge(schema, flags, sub, res, main_name)
             for c in info["classes"]:
@@ -122,6 +123,10 @@ class C06:
                 keys.append(h64(gen_text.render(sub["main"]) + repr(sub.get("files"))))
             if sig is None:
                 continue
+            if sig == "no-result" and len(subs) > 1:
+                if crashed:
+                    continue
+                crashed = True
             if len(subs) > 1:
                 r1, res1 = run([sub])
                 sig, msg, _ = self.judge(schema, flags, sub, res1[0], main_name)
